@@ -13,15 +13,15 @@ TRUSTED = [
     "correspondence harness (ops cells [debug build], tess [release build]) on the degenerate families; tolerances of DESIGN §3.6 scaled by the conditioning number",
 ]
 
-DEGENERATE = ('cluster', 'lattice', 'lattice_wall', 'on_boundary', 'collinear', 'coplanar', 'cospherical', 'cospherical_lattice', 'single', 'pair')
+DEGENERATE = ('pythagorean', 'cluster', 'lattice', 'lattice_wall', 'on_boundary', 'collinear', 'coplanar', 'cospherical', 'cospherical_lattice', 'single', 'pair')
 
 
 def run(chk):
     chk.trusted_base = TRUSTED
     chk.rule = ("ops cells (debug assertions on, compared with the exact oracle: C01 predicates) and tess (release build: C02/C04 predicates, finiteness) on the measure-zero families: generators on faces/edges/corners, "
                 "n=1, n=2, collinear, coplanar, exact and near-exact lattices (perturbation 0..1e-6), lattices on the walls, co-spherical (random on a sphere and exact lattice spheres), clusters of diameter 1e-3..1e-12 of the box; "
-                "1D/2D/3D, periodic/reflective; op clip1: on reachable cells of tie-prone families every vertex on which the float filter of the next bisector returns 0 must be removed iff the exact in-sphere determinant of the five snapped integer points is negative, with a positively oriented dual triple, and the exact predicate must have been called at least once per tie; non-trivial = input of a degenerate family on which the exact predicate was invoked or the generators touch the boundary; distinct by record")
-    chk.lean(['MVoro.Props.C05', 'MVoro.Proofs.Misc', 'MVoro.Proofs.VorSet'], ['MVoro.Obl.Grid'], ['Grid'])
+                "1D/2D/3D, periodic/reflective; op clip1: on reachable cells of tie-prone families (lattices, exact co-spherical sets incl. Pythagorean ones, on-boundary, uniform) EVERY vertex must be removed by the next bisector iff the exact in-sphere determinant of the five snapped integer points is negative (ties and clear float decisions alike; an exact zero must have gone through the exact predicate), with a positively oriented dual triple, and the exact predicate must have been called at least once per filter tie; non-trivial = input of a degenerate family on which the exact predicate was invoked or the generators touch the boundary; distinct by record")
+    chk.lean(['MVoro.Props.C05', 'MVoro.Proofs.Misc', 'MVoro.Proofs.VorSet'], ['MVoro.Obl.Grid', 'MVoro.Obl.HalfSpace'], ['Grid', 'HalfSpace'])
     exact_used = 0
     # debug build, against the exact oracle
     got = run_cells_op(chk, op='cells')
@@ -112,14 +112,20 @@ def clip1(chk):
             # the generator lies exactly on a wall of its dual triple: its mirror image coincides with it, the lifted
             # determinant vanishes identically and the vertex is kept (known degenerate configuration, see F2)
             chk.extra_cov['clip1_generator_on_wall_of_dual_triple'] = chk.extra_cov.get('clip1_generator_on_wall_of_dual_triple', 0) + 1
-            if removed:
+            if removed and (len(r.res) < 4 or r.res[3] == 'tie'):
                 chk.violation('impl-vs-model', 'filter tie with the generator on a wall of the dual triple: determinant is 0 but the vertex was removed (record %d)' % r.id, rp, key='clip1-decision')
             continue
         if orient <= 0:
             chk.violation('impl-vs-oracle', 'the dual triple of a vertex is not positively oriented on the integer grid (orientation %d): the sign of the in-sphere test is meaningless (record %d, %s)' % (orient, r.id, r.family), rp, key='clip1-orientation')
             continue
+        is_tie = len(r.res) < 4 or r.res[3] == 'tie'
         if removed != (sign < 0):
-            chk.violation('impl-vs-model', 'filter tie: clip_by_plane %s the vertex, the exact in-sphere determinant on the integer grid has sign %d (record %d, %s)' % (r.res[0], sign, r.id, r.family), rp, key='clip1-decision')
+            what = 'filter tie' if is_tie else 'vertex decided by the float filter alone'
+            chk.violation('impl-vs-model', '%s: clip_by_plane %s the vertex, the exact in-sphere determinant of the five snapped points has sign %d (record %d, %s)' % (what, r.res[0], sign, r.id, r.family), rp,
+                          key='clip1-decision' if is_tie else 'clip1-filter')
+            continue
+        if sign == 0 and not is_tie:
+            chk.violation('impl-vs-model', 'an exact tie (determinant 0 on the integer grid) was decided by the float filter alone instead of the exact predicate (record %d, %s)' % (r.id, r.family), rp, key='clip1-filter')
             continue
         if int(r.res[2]) < int(r.res[1]):
             chk.violation('impl-vs-oracle', 'the cell had %s filter ties but the exact predicate was invoked %s times (record %d)' % (r.res[1], r.res[2], r.id), rp, key='clip1-calls')
